@@ -323,7 +323,20 @@ def run(ctx):
                 out += rejected_paths(st.orelse, env, events)
             return out
         if isinstance(st, ast.Try):
-            # the scenario's validator returns (it does not raise): the handlers are not taken
+            calls_validator = any(isinstance(c, ast.Call) and isinstance(c.func, ast.Name) and env.get("@validator") == c.func.id
+                                  for b_ in st.body for c in ast.walk(b_))
+            if env.get("@raises") and calls_validator:
+                # second scenario: the validator cannot read the file and raises IOError - the handlers that catch it run instead
+                # of the rest of the body and of the else block
+                out = []
+                for h in st.handlers:
+                    names = {ast.unparse(x) for x in ([h.type] if h.type is not None and not isinstance(h.type, ast.Tuple) else (
+                        h.type.elts if h.type is not None else []))}
+                    if h.type is None or names & {"IOError", "OSError", "EnvironmentError", "Exception", "BaseException"}:
+                        out += rejected_paths(h.body + st.finalbody, env, events)
+                        break
+                return out if out else [(env, events + ["propagates", "exit"])]
+            # the validator returns (it does not raise): the handlers are not taken
             return rejected_paths(st.body + st.orelse + st.finalbody, env, events)
         if isinstance(st, (ast.Continue, ast.Break, ast.Return)):
             return [(env, events + ["exit"])]
@@ -340,6 +353,14 @@ def run(ctx):
     ctx.expect(okrej, "R19.2", "get_cache_misses[rejected entry is re-fetched]",
                "on every path on which the validator rejects a present entry, the entry (and its file) is dropped and a miss is "
                "scheduled for download", gm.loc(), derived=detail)
+    if len(loops_gm) == 1:
+        finals = rejected_paths(loops_gm[0].body, {"@raises": True}, [])
+        handled = [ev_ for _, ev_ in finals if "propagates" not in ev_]
+        okraise = all("remove" in ev_ and "miss" in ev_ for ev_ in handled)
+        ctx.expect(okraise if finals else None, "R19.2", "get_cache_misses[unreadable entry is re-fetched]",
+                   "when the validator raises IOError on a present entry and the error is caught, the entry (and its file) is dropped "
+                   "and a miss is scheduled, exactly as for a rejection by value", gm.loc(),
+                   derived="; ".join(sorted({"+".join(ev_) or "nothing" for _, ev_ in finals})))
 
     # ---- R19.4 every directive of a request is honoured, and a failure is attributed to its own URI
     from .fc import loop_locals_used_after
@@ -443,6 +464,6 @@ def run(ctx):
         ctx.expect(cleanup, "R19.3", "_worker[cleanup on failure]",
                    "a failed download or post-processing removes the temporary file and re-raises", worker.loc())
     ctx.require_count("R19.1", 3)
-    ctx.require_count("R19.2", 4)
+    ctx.require_count("R19.2", 5)
     ctx.require_count("R19.3", 4)
     ctx.functions_analysed.update({f.qualname: 1 for f in fc_methods + [dl, worker]})
